@@ -46,6 +46,7 @@ type Step struct {
 	Solo   bool              `json:"solo,omitempty"`
 	Settle bool              `json:"settle,omitempty"`
 	Meta   string            `json:"meta,omitempty"`
+	Shape  string            `json:"shape,omitempty"`
 }
 
 // Do performs one step, waits for the system to block, and logs what it
@@ -150,6 +151,9 @@ func (w *World) do(st Step) bool {
 		if out == "" {
 			out = "ok"
 		}
+		if strings.HasPrefix(out, "bad:") {
+			return w.sim.replyBad(f[st.Pick%len(f)], out[4:])
+		}
 		return w.sim.reply(f[st.Pick%len(f)], out, st.Arg, st.Meta)
 	case "event":
 		v := noVal
@@ -157,6 +161,8 @@ func (w *World) do(st Step) bool {
 			v = *st.Val
 		}
 		return w.sim.event(st.N, st.Ev, st.A, st.K, v, st.Force)
+	case "inject":
+		return w.sim.inject(st.N, st.Shape)
 	case "mutate":
 		v := noVal
 		if st.Val != nil {
